@@ -342,7 +342,9 @@ func c03iNew(pool4, pool6 int) (*c03iHarness, func()) {
 	v6 := map[string]*ip.IPv6Profile{
 		"v6": {IANAPools: []ip.IANAPool{{Name: "p6", Network: "2001:db8:66::/64", RangeStart: "2001:db8:66::10",
 			RangeEnd: "2001:db8:66::" + strconv.FormatInt(int64(0x10+pool6-1), 16), Gateway: "2001:db8:66::1",
-			PreferredTime: 3600, ValidTime: 7200}}},
+			PreferredTime: 3600, ValidTime: 7200}},
+			// IA_PD: /56 out of a /44 (4096 prefixes, never exhausted here); every client v6 message asks for IA_PD too
+			PDPools: []ip.PDPool{{Name: "pd", Network: "2001:db8:7000::/44", PrefixLength: 56, PreferredTime: 3600, ValidTime: 7200}}},
 	}
 	if pool6 == 0 {
 		v6["v6"].IANAPools[0].RangeStart, v6["v6"].IANAPools[0].RangeEnd = "2001:db8:66::1", "2001:db8:66::1"
@@ -419,6 +421,7 @@ func (h *c03iHarness) v6pkt(i int, mt dhcp6.MessageType) *dataplane.ParsedPacket
 	}
 	opt(1, duid)                                       // client id
 	opt(3, []byte{0, 0, 0, byte(i + 1), 0, 0, 0, 0, 0, 0, 0, 0}) // IA_NA iaid, T1, T2
+	opt(25, []byte{0, 0, 0, byte(i + 1), 0, 0, 0, 0, 0, 0, 0, 0}) // IA_PD iaid, T1, T2
 	opt(8, []byte{0, 0})                               // elapsed time
 	d := &layers.DHCPv6{}
 	if err := d.DecodeFromBytes(raw, gopacket.NilDecodeFeedback); err != nil {
